@@ -835,10 +835,20 @@ func TestC15OperatorFile(t *testing.T) {
 			file = fmt.Sprintf(file, login)
 		}
 		ops := rapid.SliceOfN(rapid.SampledFrom([]string{"delete", "create-again", "create-duplicate", "password", "edit", "rename", "restart"}), 1, 5).Draw(rt, "ops")
+		legacyForm := rapid.IntRange(0, 2).Draw(rt, "operatorFileInTheOlderNumericForm") == 0
 		old := hlsim.AccountSpec{Login: login, Name: "Original", Password: "oldpw", Access: hlref.AccessOf(hlref.PrivDownloadFile)}
 		var done []string
 		inWorld(rt, hlsim.Options{Accounts: []hlsim.AccountSpec{acct("admin", "Admin", "adminpw", allAccess), old}, Agreement: "a"}, func(rt *rapid.T, w *hlsim.World) {
 			must(os.Rename(filepath.Join(w.UsersDir, login+".yaml"), filepath.Join(w.UsersDir, file)))
+			if legacyForm {
+				// the operator's file is in the older numeric form: the server rewrites such an account in the named form when it starts
+				acc := hlref.AccessOf(hlref.PrivDownloadFile)
+				parts := make([]string, 8)
+				for i, b := range acc {
+					parts[i] = fmt.Sprint(int(b))
+				}
+				must(os.WriteFile(filepath.Join(w.UsersDir, file), []byte(fmt.Sprintf("Login: %s\nName: Original\nPassword: %q\nAccess: [%s]\n", login, hlsim.HashPassword("oldpw"), strings.Join(parts, ", "))), 0o644))
+			}
 			if err := w.Restart(); err != nil {
 				rt.Fatalf("the server does not start with the account %q in the file %q: %v", login, file, err)
 			}
